@@ -716,7 +716,7 @@ def cmd_replay(args):
         p = subprocess.run(["cargo", "kani", "playback", "-Z", "concrete-playback"] + g["target"] + ["--", tname],
                            cwd=os.path.join(ov.path, g["pkg"]), env=env2, stdout=subprocess.PIPE, stderr=subprocess.STDOUT, text=True)
         log(p.stdout[-4000:])
-        failed = re.search(r"test \S*" + tname + r" \.\.\. FAILED", p.stdout) is not None
+        failed = re.search(r"test \S*" + tname + r"\w* \.\.\. FAILED", p.stdout) is not None
         log("REPRODUCED" if failed else "NOT REPRODUCED")
         return 1 if failed else 0
     finally:
